@@ -81,10 +81,10 @@ Proof.
   exists []. simpl. rewrite app_nil_r. repeat split; try reflexivity; try exact I; try discriminate.
 Qed.
 
-Lemma sync_loop_ret_errs U L c has : forall blocks b n ops up errs cids res,
-  sync_loop std_upload U L c has blocks b n ops up errs cids = Some res -> r_ret res = true -> errs = 0%nat.
+Lemma sync_loop_ret_errs U L c has : forall blocks b n ops up errs cids ck res,
+  sync_loop std_upload U L c has blocks b n ops up errs cids ck = Some res -> r_ret res = true -> errs = 0%nat.
 Proof.
-  induction blocks as [|id r IH]; intros b n ops up errs cids res H Hr; simpl in H.
+  induction blocks as [|id r IH]; intros b n ops up errs cids ck res H Hr; simpl in H.
   - destruct (tick (c_fault c) n); inversion H; subst; simpl in Hr; try discriminate;
       apply Nat.eqb_eq in Hr; exact Hr.
   - destruct (linfo_of L id) as [i|]; [|discriminate]. destruct (ublock U id) as [bl|]; [|discriminate].
@@ -93,10 +93,10 @@ Proof.
     destruct (negb (N.leb (l_level i) 1) && negb (c_uc c)); [eapply IH; eauto|].
     destruct (tick (c_fault c) n); try (inversion H; subst; simpl in Hr; discriminate).
     destruct (bhas b (id, FMeta)); [eapply IH; eauto|].
-    destruct (negb (N.leb (l_level i) 1) && negb (c_ooo c)); [discriminate|].
+    destruct (overlap_gate L c b (S n) ck i) as [|n1 ck']; [inversion H; subst; simpl in Hr; discriminate|].
     destruct (c_lbl c) as [lbl|].
     + destruct (upload_ops std_upload U id (map fst (b_chunks bl)) (hd 0%N cids) lbl) as [l|]; [|discriminate].
-      destruct (run_ups (c_fault c) (S n) b [] l) as [[[b' n'] done] u]. destruct u.
+      destruct (run_ups (c_fault c) n1 b [] l) as [[[b' n'] done] u]. destruct u.
       * eapply IH; eauto.
       * destruct (c_ooo c); [|inversion H; subst; simpl in Hr; discriminate].
         apply IH in H; [discriminate|exact Hr].
@@ -156,12 +156,12 @@ Proof.
       intros id' [Hi|Hi]; [subst id'; right; apply Hmono; exact Hidok|apply Hn2; exact Hi].
 Qed.
 
-Lemma sync_loop_sound U L c has : wf_univ U -> forall blocks b n ops up errs cids res,
+Lemma sync_loop_sound U L c has : wf_univ U -> forall blocks b n ops up errs cids ck res,
   binv U b ->
-  sync_loop std_upload U L c has blocks b n ops up errs cids = Some res ->
+  sync_loop std_upload U L c has blocks b n ops up errs cids ck = Some res ->
   loop_post U L c has blocks b ops up res.
 Proof.
-  intros Hwf. induction blocks as [|id r IH]; intros b n ops up errs cids res Hb H; simpl in H.
+  intros Hwf. induction blocks as [|id r IH]; intros b n ops up errs cids ck res Hb H; simpl in H.
   - assert (E : exists m ret, res = mksres b ops m ret /\ (forall l, m = Some l -> l = up)).
     { destruct (tick (c_fault c) n); inversion H; subst; eexists; eexists; split; try reflexivity;
         intros l Hl; inversion Hl; reflexivity. }
@@ -188,10 +188,10 @@ Proof.
     { apply (loop_post_cons_same U L c has id r b ops up (up ++ [id]) res); [eapply IH; eauto| |].
       - intros _ i' _ _. right. exact Hhas.
       - right. split; [reflexivity|right; exact Hhas]. }
-    destruct (negb (N.leb (l_level i) 1) && negb (c_ooo c)); [discriminate|].
+    destruct (overlap_gate L c b (S n) ck i) as [|n1 ck']; [inversion H; subst; apply loop_post_stop|].
     destruct (c_lbl c) as [lbl|] eqn:Hlbl.
     + destruct (upload_ops std_upload U id (map fst (b_chunks bl)) (hd 0%N cids) lbl) as [l|] eqn:Hl; [|discriminate].
-      destruct (run_ups (c_fault c) (S n) b [] l) as [[[b' n'] done] u] eqn:Hrun.
+      destruct (run_ups (c_fault c) n1 b [] l) as [[[b' n'] done] u] eqn:Hrun.
       destruct (run_ups_spec _ _ _ _ _ _ _ _ _ Hrun) as [k [Hd [Hb' Hfull]]]. simpl in Hd. subst done b'.
       pose proof (upload_ops_shape U id _ _ lbl l Hl) as [Hups Hlbls].
       assert (G1 : bguarded U b (firstn k l)) by (apply guarded_firstn; eapply upload_guarded; eauto).
